@@ -196,6 +196,29 @@ fn scenario_events(events: &[LEv], local_only: bool, reset_prelude: Option<&toki
         }
         // replicate to b: expected = entries of a whose version changed on b and are not deleted
         let before_b: std::collections::BTreeMap<String, u64> = b.cc.node_state(&aid).map(|ns| ns.key_values_including_deleted().map(|(k, v)| (k.to_string(), v.version)).collect()).unwrap_or_default();
+        // every fourth write reaches the replica through the external catch-up entry point instead of gossip: only the
+        // entries that are newer than the replica's may notify (the others are "updates ignored as stale")
+        if wi % 4 == 2 && b.cc.node_state(&aid).is_some() {
+            let (kvs, mv, gc) = {
+                let ns = a.cc.node_state(&aid).unwrap();
+                (ns.key_values_including_deleted().map(|(k, v)| (k.to_string(), v.clone())).collect::<Vec<_>>(), ns.max_version(), ns.last_gc_version())
+            };
+            if let Err(p) = catch(|| b.cc.reset_node_state_if_update(&aid, kvs.into_iter(), mv, gc)) {
+                out.findings.push(Finding::new(&["C15", "C18"], "listener.catchup_panic", format!("{what}: {p}")));
+                return;
+            }
+            let mut want = vec![];
+            if let Some(ns) = b.cc.node_state(&aid) {
+                for (k, v) in ns.key_values_including_deleted() {
+                    if before_b.get(k) != Some(&v.version) && st_code(v) != 1 {
+                        want.extend(sb.expected(k, &v.value, &aid));
+                    }
+                }
+            }
+            out.c.inc("catch_up_replications");
+            compare(&sb, want, &format!("{what} (external catch-up)"), out);
+            continue;
+        }
         let syn = b.cc.verif_create_syn_message().serialize_to_vec();
         let r = catch(|| -> Result<Vec<u8>, String> {
             let synack = feed(&mut a.cc, &syn)?.ok_or("no synack")?;
